@@ -62,7 +62,7 @@ def data_line(rng):
     if k == 4:
         return 'shorts 0x1234 -2'
     if k == 5:
-        return 'string ' + rng.choice(['hello', 'a', 'ab', 'hello world', 'x' * 7, 'tab\\there', ''])
+        return 'string ' + rng.choice(['hello', 'a', 'ab', 'hello world', 'x' * 7, 'tab\\there', '', '\u00e9\u00e9', 'na\u00efve!', '\u4e2d\u6587', '\U0001f600', 'caf\u00e9s'])
     if k == 6:
         return 'pack <{} {}'.format(rng.choice(['B', 'H', 'I', 'h', 'i', 'b']), rng.choice([0, 1, 100, 127]))
     return 'dd 0x1122334455667788'
@@ -193,7 +193,7 @@ def program(rng, size='small', big_gap=False, aligns=True, data=True, consts=Tru
     return '\n'.join(out) + '\n', meta
 
 
-NSCEN = 19
+NSCEN = 20
 
 
 def scenarios(rng, n):
@@ -340,6 +340,25 @@ def scenarios(rng, n):
                      'li {}, {}'.format(rd, rng.choice([2047, -2048, 32, -33]))]
             rng.shuffle(lines)
             add('\n'.join(lines) + '\n')
+        elif t == 19:
+            # two-instruction expansions (far tail / call to an absolute address, long li) in FRONT of a label that is
+            # directly followed by a shrinking pseudo-instruction: the running position of the pass must count both halves
+            k = 1 + j % 2
+            far = rng.choice(['tail FAR', 'call FAR', 'li t3, 0x12345678'])
+            shr = rng.choice(['li t0, 5', 'call L', 'tail L', 'li t1, -7'])
+            lines = ['FAR = 0x200000'] + [far] * k + ['L:', shr, 'dw L', 'j L', 'dw %offset(L)', 'li a0, L', 'M:', 'nop', 'dw M']
+            src = '\n'.join(lines) + '\n'
+            meta = []
+            for i, l in enumerate(lines, start=1):
+                if l in ('dw L', 'dw M', 'dw %offset(L)'):
+                    meta.append({'line': i, 'kind': 'dw', 'label': l[-2] if l.endswith(')') else l.split()[1], 'text': l})
+                elif l == 'j L':
+                    meta.append({'line': i, 'kind': 'j', 'label': 'L', 'text': l})
+                elif l == 'li a0, L':
+                    meta.append({'line': i, 'kind': 'li', 'label': 'L', 'text': l})
+                elif l in ('call L', 'tail L'):
+                    meta.append({'line': i, 'kind': l.split()[0], 'label': 'L', 'text': l})
+            add(src, meta)
         else:
             src = 'start:\nauipc x5, %hi(%offset(start))\njalr x0, x5, %lo(%offset(start))\nlui x6, %hi(start)\nlw x7, x6, %lo(start)\n'
             add(src)
